@@ -91,7 +91,8 @@ static void script_h(int HARNESS_, int id, int slot) {
         polyseed_free(s); polyseed_free(s2);
     } else if (HARNESS_ == 8) {         /* shared recycling allocator: blocks released by one thread are handed to the other */
         if (id == 0) { r = polyseed_load(PRE_ST[0], &s); T(slot, (uint64_t)r); polyseed_free(s); s = NULL; r = polyseed_create(1, &s); T(slot, (uint64_t)r); polyseed_store(s, st); Tbuf(slot, st, 32); polyseed_free(s); }
-        else { r = polyseed_create(0, &s); T(slot, (uint64_t)r); polyseed_store(s, st); Tbuf(slot, st, 32); polyseed_free(s); s = NULL; r = polyseed_load(PRE_ST[1], &s); T(slot, (uint64_t)r); if (r == 0) { T(slot, polyseed_get_birthday(s)); polyseed_free(s); } }
+        else { r = polyseed_load(PRE_UNS_ST, &s); T(slot, (uint64_t)r); if (r == 0) polyseed_free(s); s = NULL;      /* a refused image: its block goes back to the pool on the error path */
+               r = polyseed_create(0, &s); T(slot, (uint64_t)r); polyseed_store(s, st); Tbuf(slot, st, 32); polyseed_free(s); s = NULL; r = polyseed_load(PRE_ST[1], &s); T(slot, (uint64_t)r); if (r == 0) { T(slot, polyseed_get_birthday(s)); polyseed_free(s); } }
         T(slot, (uint64_t)free_calls[id]); T(slot, (uint64_t)free_unwiped[id]);
     } else if (HARNESS_ == 6) {         /* optional allocator entries left NULL (libc malloc/free): create, free, create again, store, free */
         r = polyseed_create(0, &s); T(slot, (uint64_t)r); polyseed_store(s, st); Tbuf(slot, st, 32); polyseed_free(s);
